@@ -1,6 +1,6 @@
 import operator
-from functools import reduce
-from typing import Any, Optional
+from functools import reduce, wraps
+from typing import Any, Callable, Optional, TypeVar
 
 from measured import Numeric, One, Quantity, Unit
 
@@ -19,18 +19,39 @@ def _integer(text: str) -> int:
         raise ParseError(str(error)) from error
 
 
+C = TypeVar("C", bound=Callable[..., Unit])
+
+
+def _representable(callback: C) -> C:
+    """Combining prefixes of different bases rescales their exponents through
+    floating-point logarithms, which overflows for exponents beyond the range of a
+    float; for the caller, that is text that cannot be parsed"""
+
+    @wraps(callback)
+    def wrapped(*args: Any, **kwargs: Any) -> Unit:
+        try:
+            return callback(*args, **kwargs)
+        except OverflowError as error:
+            raise ParseError(str(error)) from error
+
+    return wrapped  # type: ignore[return-value]
+
+
 class QuantityTransformer(_parser.Transformer[Any, "Quantity"]):
     inline = _parser.v_args(inline=True)
 
     @inline
+    @_representable
     def unit(self, numerator: Unit, denominator: Optional[Unit] = None) -> Unit:
         return numerator / (denominator or One)
 
     @inline
+    @_representable
     def unit_sequence(self, *terms: Unit) -> Unit:
         return reduce(operator.mul, terms)
 
     @inline
+    @_representable
     def term(self, symbol: str, exponent: int = 1) -> Unit:
         return Unit.resolve_symbol(symbol) ** exponent
 
